@@ -448,7 +448,7 @@ def _select(ctx, progs):
         names = sorted({k[0] for k in keys})
         rnd.shuffle(names)
         names.sort(key=lambda n: progs[n]["entry"]["prio"])
-        for k, n in enumerate(names[:12]):
+        for k, n in enumerate(names[:11]):
             lv = [l for (m, l) in keys if m == n]
             if not lv:
                 continue
